@@ -127,6 +127,18 @@ def direct_property(md, src):
     return v
 
 
+TREE_CONFIGS = [
+    {"preset": "commonmark", "options": {}, "enable": [], "disable": [], "ruler2_off": ["fragments_join"]},
+    {"preset": "js-default", "options": {"linkify": False}, "enable": [], "disable": [], "ruler2_off": ["fragments_join"]},
+    {"preset": "commonmark", "options": {}, "enable": ["strikethrough", "table"], "disable": [], "ruler2_off": []},
+]
+TREE_DOCS = [
+    "*a **b** c*\n", "*(*foo*)*\n", "**bold with [a *link*](/u) inside**\n", "> - item with ~~struck *em*~~ text\n",
+    "***a** b*\n", "*a [b **c** d](/u) e*\n", "- *x **y** z*\n  1. **p *q* r**\n", "|h|\n|-|\n|*a **b** c*|\n",
+    "# *a **b***\n\n> *c **d** e*\n",
+]
+
+
 def run(ctx) -> int:
     rep: Reporter = ctx["rep"]
     tier, seed, proofs = ctx["tier"], ctx["seed"], ctx["proofs"]
@@ -138,17 +150,25 @@ def run(ctx) -> int:
     cases, expect, inputs = [], [], []
     direct = None
     kinds = {"dict": 0, "tree": 0, "render": 0}
-    for k in range(n):
-        cfg = configs.STANDARD[k % len(configs.STANDARD)] if k % 3 == 0 else configs.random_config(rng)
+    # fixed corpus, run first: streams whose level fields are NOT consistent with their nesting
+    # (fragments_join is what recomputes inline levels; with it off, nested pairs share a level), and
+    # deep well-levelled ones - the tree builder must pair by nesting there
+    fixed = [(c, d) for c in TREE_CONFIGS for d in TREE_DOCS]
+    for k in range(-len(fixed), n):
+        if k < 0:
+            cfg, src = fixed[k + len(fixed)]
+        else:
+            cfg = configs.STANDARD[k % len(configs.STANDARD)] if k % 3 == 0 else configs.random_config(rng)
         cfg = dict(cfg, options={kk: v for kk, v in cfg["options"].items() if kk != "highlight"})
         md = configs.make_md(cfg)
         if not supported(md):
             continue
-        src = docs.random_doc(rng)
-        if k % 7 == 0:
+        if k >= 0:
+            src = docs.random_doc(rng)
+        if k >= 0 and k % 7 == 0:
             src = rng.choice(["#\n", "## ##\n", "|a|b|\n|-|-|\n|![i *j*](u)||\n", "*a **b** c*\n", "***x***\n", "1. x\n7. y\n",
                               "![a ![b](c) d](e \"t\")\n", "[r]: /u 'T'\n\n[r]\n"]) + src
-        if direct is None:
+        if direct is None or k < 0:
             d = direct_property(md, src)
             if d:
                 direct = {"config": cfg, "src": src, **d}
@@ -159,7 +179,7 @@ def run(ctx) -> int:
         if not tok.encodable(tokens):
             continue
         enc = tok.enc_tokens(tokens)
-        which = k % 3
+        which = 1 if k < 0 else k % 3
         if which == 0:
             c, u = (k // 3) % 2 == 0, (k // 6) % 2 == 0
             cases.append(sx([21, [c, u, enc]]))
